@@ -643,16 +643,17 @@ for _pid, _spec in PROPS.items():
 EXTRA_FILES = {
     "C06": ["Kanal/Props/C06Fair.lean", "Kanal/Props/C06Chan.lean", "Kanal/Props/C06Async.lean",    # eventual completion under weak fairness
             "Kanal/TieProto.lean", "Kanal/ProtoSim.lean", "Kanal/TiePaths.lean",
-            "Kanal/Own.lean", "Kanal/TieDiscipline.lean"],                   # every waiter a call takes out of the wait list gets its one final store before the call returns
+            "Kanal/Own.lean", "Kanal/TieDiscipline.lean", "Kanal/Props/C06Code.lean"],                   # every waiter a call takes out of the wait list gets its one final store before the call returns
     "C18": ["Kanal/Bridge.lean", "Kanal/Bridge2.lean", "Kanal/Refine/Congr.lean", "Kanal/Refine/Step.lean", "Kanal/Refine/Exec.lean", "Kanal/Refine/Raw.lean", "Kanal/Refine/Mach.lean"],                                                                  # Fine read sequentially = Spec.step
     "C03": ["Kanal/Sections.lean", "Kanal/SpecSections.lean", "Kanal/Refine/Exec.lean", "Kanal/Refine/Mach.lean"],   # + segment-atomic executions of the code are executions of Spec
     # translated signal.rs / mutex.rs / spin_cond conform to SigM / MutexM (TieProto), and conformance is adequate (ProtoSim)
     "C07": ["Kanal/TieProto.lean", "Kanal/ProtoSim.lean", "Kanal/TiePaths.lean", "Kanal/Props/C07Pin.lean",   # + the futures are !Unpin
             "Kanal/Own.lean", "Kanal/NoDangle.lean", "Kanal/TieDiscipline.lean", "Kanal/WakerReg.lean"],     # one peer per popped signal, exactly once; no frame dies while its signal can be touched
     "C17": ["Kanal/TieProto.lean", "Kanal/ProtoSimMutex.lean", "Kanal/TiePaths.lean", "Kanal/NoWaitLocked.lean"],
-    "C13": ["Kanal/TieProto.lean", "Kanal/NoDangle.lean", "Kanal/TieDiscipline.lean", "Kanal/Disp.lean"],   # + on Timeout the value is handed back or dropped once (Disp)            # wait_timeout / is_terminated; a timed call returns only unexposed
+    "C13": ["Kanal/TieProto.lean", "Kanal/NoDangle.lean", "Kanal/TieDiscipline.lean", "Kanal/Disp.lean", "Kanal/Reasons.lean"],   # + on Timeout the value is handed back or dropped once (Disp)            # wait_timeout / is_terminated; a timed call returns only unexposed
     "C16": ["Kanal/TieProto.lean", "Kanal/WakerReg.lean"],   # + every Pending leaves this poll's waker registered; the slot is written only unexposed or listed-under-lock            # poll, will_wake, register_waker, the constructors (a signal starts LOCKED)
     "C15": ["Kanal/TieProto.lean", "Kanal/Props/C07Pin.lean", "Kanal/NoDangle.lean", "Kanal/TieDiscipline.lean"],   # async_blocking_wait in Drop; Drop is what un-registers a future: it cannot be moved before
+    "C11": ["Kanal/Reasons.lean"],       # an error is answered only for its reason (Closed / SendClosed / ReceiveClosed tests on the state the section bound, or a failed wait)
     "C14": ["Kanal/Props/C14Fine.lean", "Kanal/NoWaitLocked.lean"],   # + whoever holds the channel lock never waits for a peer: try_* can only be delayed by straight-line sections
     "C01": ["Kanal/Disp.lean", "Kanal/Deliver.lean"],     # on the translated code: a sent value is disposed of exactly once; a value taken out of the channel is delivered exactly once
     "C19": ["Kanal/Deliver.lean"],                         # drain_into: every value taken is pushed, the count is the number pushed
@@ -660,7 +661,7 @@ EXTRA_FILES = {
     "C05": ["Kanal/TiePtr.lean", "Kanal/Disp.lean", "Kanal/Deliver.lean"],              # … and a value passed by value is consumed exactly once (moved or bit-copied + forgotten)
     "C02": ["Kanal/Props/RealTime.lean"],      # real-time readings over executions: acceptance order in time, later value never taken first, drain order
     "C08": ["Kanal/Props/RealTime.lean"],      # at every instant of an execution: accepted-and-unblocked minus delivered <= n; rendezvous
-    "C10": ["Kanal/Props/RealTime.lean"],      # after close has returned: nothing delivered, every later call answers closed       # realtime variants on the translated code: one tryLock, busy => not done, never waits   # interleaving machine: the logical state moves by whole critical sections = Chan functions
+    "C10": ["Kanal/Props/RealTime.lean", "Kanal/Reasons.lean"],      # after close has returned: nothing delivered, every later call answers closed       # realtime variants on the translated code: one tryLock, busy => not done, never waits   # interleaving machine: the logical state moves by whole critical sections = Chan functions
 }
 for _pid in ("C07", "C15"):
     PROPS[_pid]["extra_checks"] = list(PROPS[_pid].get("extra_checks", [])) + [pin_check]
